@@ -104,7 +104,7 @@ impl Prop for C08 {
     }
     fn rule(&self) -> &'static str {
         "one run = a history (backups, stale-index double backups, forgets, non-instant prunes with repacking; in half of the v2 runs compression switched off/on followed by another backup; then merge of all snapshots, rewrite with excludes, v1->v2 upgrade + prune --repack-uncompressed when the repo is v1, copy into a repository with other key/compression/pack size; the tail optionally under a seeded schedule) \
-         with drawn blob-size mixes, compression levels and pack-size limits; monitor: every pack and index file ever written (taken from the op log, including files deleted later) is decoded independently: \
+         with drawn blob-size mixes, compression levels and pack-size limits (1 run in 150: a file of 12 000 64-byte chunks with default pack sizes, so that packs are closed by the blob-count limit and carry the largest headers); monitor: every pack and index file ever written (taken from the op log, including files deleted later) is decoded independently: \
          pack id = SHA-256(bytes), trailer length, header authenticates, entries tile the body in order, every blob authenticates/decompresses to its recorded length and hashes to its id, single blob type per pack; \
          every index entry for a pack written in this world equals the header (type, id, offset, length, raw length) and the size. Then a seeded subset (or all) of the index files is removed, in a third of the runs one or two unreadable pack files (truncated copies under other ids) are planted, repair_index (+/- read_all) runs, \
          and every snapshot must read back equal to its model with check(read_data) clean. evaluations = packs+index files audited + 1; non-trivial = >= 3 packs audited and an index file actually removed; distinct = hash(history, config, removed set)"
@@ -151,6 +151,19 @@ impl Prop for C08 {
         let mut rep = Report::default();
         common::run_setup(s.subseed, s.start_s);
         let mut rng = Rng::new(s.subseed ^ 0xc08);
+        // rarely: packs that are closed by the blob-count limit, not by size (thousands of tiny blobs, default
+        // pack sizes, compressed entries): the largest headers the library writes
+        let many_blobs = s.subseed % 150 == 7;
+        let mut s = s;
+        if many_blobs {
+            s.cfg.version = 2;
+            s.cfg.chunker = crate::world::ChunkerCfg::Fixed { size: 64 };
+            s.cfg.datapack_size = None;
+            s.cfg.treepack_size = None;
+            s.cfg.compression = Some(1);
+            s.steps = 2;
+            s.scheduled_tail = false;
+        }
         let mut sim = Sim::new(s.subseed, s.cfg.clone(), &env.cpus, "c08");
         if let Cmd::Err(e) = sim.init() {
             rep.sample = json!({"skipped": "configuration refused by init", "error": e});
@@ -158,6 +171,12 @@ impl Prop for C08 {
             return rep;
         }
         let mut model = build_model_min(&s.gen, s.model_seed, &[], s.start_s, 2);
+        if many_blobs {
+            let data = rng.bytes(64 * 12_000);
+            let e = crate::model::default_entry(&mut rng, crate::model::Kind::File(std::sync::Arc::new(data)), s.start_s);
+            let _ = model.entries.insert(vec![b"twelve-thousand-chunks".to_vec()], e);
+            rep.fire("pack_closed_by_blob_count_limit_scenario", 1);
+        }
         let mut hist = match sim.build_history(&mut rng, &s.gen, &mut model, s.steps) {
             Ok(h) => h,
             Err((fp, d)) => {
